@@ -317,6 +317,38 @@ fn run_c17(ctx: &mut Ctx, rng: &mut Rng, thorough: bool, shard: usize, shards: u
             eval_tree(ctx, rng, s);
         }
     }
+    // deep and wide trees: nesting far beyond what a message of a few parts has (a path of 9, 17, 33,
+    // 65, 100 components), multiparts of 9..1000 children (two- and three-digit part numbers, numbers
+    // beyond 255), and both at once
+    let mut directed: Vec<Shape> = vec![];
+    for &d in &[5usize, 6, 7, 8, 9, 10, 11, 12, 15, 16, 17, 31, 32, 33, 64, 65, 100] {
+        for variant in 0..3 {
+            // a chain going down through the last child; `variant` siblings in front of it at every level
+            let mut s = Shape::Leaf((d % 3) as u8);
+            for lvl in 0..d {
+                let mut kids: Vec<Shape> = (0..variant).map(|k| Shape::Leaf(((k + lvl) % 3) as u8)).collect();
+                kids.push(s);
+                s = Shape::Multi(kids);
+            }
+            directed.push(s);
+        }
+    }
+    for &w in &[9usize, 10, 11, 16, 17, 99, 100, 101, 255, 256, 257, 300, 1000] {
+        directed.push(Shape::Multi((0..w).map(|k| Shape::Leaf((k % 3) as u8)).collect()));
+        // the last child is itself a multipart, and so is the first
+        let mut kids: Vec<Shape> = (0..w).map(|k| Shape::Leaf((k % 3) as u8)).collect();
+        kids[w - 1] = Shape::Multi(vec![Shape::Leaf(0), Shape::Multi(vec![Shape::Leaf(1), Shape::Leaf(2)])]);
+        kids[0] = Shape::Multi(vec![Shape::Leaf(2)]);
+        directed.push(Shape::Multi(kids));
+        // wide below the top
+        directed.push(Shape::Multi(vec![Shape::Leaf(0), Shape::Multi((0..w).map(|k| Shape::Leaf((k % 3) as u8)).collect())]));
+    }
+    for (i, s) in directed.iter().enumerate() {
+        if i % shards == shard {
+            eval_tree(ctx, rng, s);
+            ctx.log.count("c17:deep-or-wide");
+        }
+    }
     let n = if thorough { 100_000 } else { 6_000 } / shards;
     for _ in 0..n {
         let mut s = random_shape(rng, 4);
@@ -336,6 +368,36 @@ fn gen_pair(seed: u64, kind: usize, cfg: &GenCfg) -> (Response<'static>, Respons
     (gen_response_kind(&mut r1, cfg, kind), gen_response_kind(&mut r2, cfg, kind))
 }
 
+/// C15 (a): generate the same value twice from one seed, convert one copy, compare field by field
+/// (serialisation and PartialEq).  Returns false when the generator itself gave up on this seed.
+fn eval_gen(ctx: &mut Ctx, s: u64, kind: usize, cfg: &GenCfg, free: bool) -> bool {
+    let r = std::panic::catch_unwind(|| {
+        let (v1, v2) = if free { vh_proto::gen::with_free_values(|| gen_pair(s, kind, cfg)) } else { gen_pair(s, kind, cfg) };
+        let want = ser::response(&v2);
+        let owned = v1.into_owned();
+        let got = ser::response(&owned);
+        (want, got, owned == v2)
+    });
+    if free {
+        ctx.log.count("c15:free-value-space");
+    }
+    let (want, got, eq) = match r {
+        Ok(x) => x,
+        Err(_) => return false,
+    };
+    ctx.log.evaluations += 1;
+    ctx.log.count(&format!("c15:kind:{}", KINDS[kind]));
+    ctx.log.nontrivial(&want);
+    if want != got || !eq {
+        ctx.fail(
+            "owned-differs",
+            format!("into_owned changed a generated {} value: before {} after {}", KINDS[kind], clip(&want), clip(&got)),
+            &format!("gen {} {} {} {} {} {} {}", s, kind, cfg.max_depth, cfg.adversarial as u8, cfg.max_str, cfg.max_lit, free as u8),
+        );
+    }
+    true
+}
+
 fn run_c15(ctx: &mut Ctx, rng: &mut Rng, thorough: bool, shard: usize, shards: usize) {
     let n = if thorough { 500_000 } else { 24_000 } / shards;
     for i in 0..n {
@@ -348,26 +410,11 @@ fn run_c15(ctx: &mut Ctx, rng: &mut Rng, thorough: bool, shard: usize, shards: u
         };
         let s = rng.next_u64();
         // (a) generated value: into_owned(v) == v, field by field
-        let r = std::panic::catch_unwind(|| {
-            let (v1, v2) = gen_pair(s, kind, &cfg);
-            let want = ser::response(&v2);
-            let owned = v1.into_owned();
-            let got = ser::response(&owned);
-            (want, got, owned == v2)
-        });
-        let (want, got, eq) = match r {
-            Ok(x) => x,
-            Err(_) => continue,
-        };
-        ctx.log.evaluations += 1;
-        ctx.log.count(&format!("c15:kind:{}", KINDS[kind]));
-        ctx.log.nontrivial(&want);
-        if want != got || !eq {
-            ctx.fail(
-                "owned-differs",
-                format!("into_owned changed a generated {} value: before {} after {}", KINDS[kind], clip(&want), clip(&got)),
-                &format!("gen {} {}", s, kind),
-            );
+        // every third value from the whole value space of the types (empty strings and lists where the
+        // wire form has none): this half never prints the value
+        let free = i % 3 == 2;
+        if !eval_gen(ctx, s, kind, &cfg, free) {
+            continue;
         }
         // (b) parsed value: print, parse from a heap buffer, into_owned, clobber + free the buffer
         let wire = std::panic::catch_unwind(|| {
@@ -535,6 +582,11 @@ fn main() {
             let toks: Vec<&str> = line.split_whitespace().collect();
             match toks[0] {
                 "owned" => eval_owned_bytes(&mut ctx, &vh_proto::prng::unhex(toks[1])),
+                "gen" if toks.len() >= 8 => {
+                    let p = |k: usize| -> u64 { toks[k].parse().unwrap_or(0) };
+                    let cfg = GenCfg { max_depth: p(3) as u32, adversarial: p(4) == 1, max_str: p(5) as usize, max_lit: p(6) as usize };
+                    eval_gen(&mut ctx, p(1), p(2) as usize, &cfg, p(7) == 1);
+                }
                 "bsp" => {
                     // rebuild the shape from the tokens
                     fn parse(toks: &[&str], pos: &mut usize) -> Shape {
